@@ -177,6 +177,15 @@ def _scale_unit(maxlen, bounded=False):
         contracts = {0: inv_main}
     else:
         raise Undecided("extraction out of date: SpVecFP::operator*(scalar) has %d loops with headers %s" % (len(ls), "; ".join(h[:50] for h in heads)))
+    if not bounded:
+        # the product expression is opaque in the loop proof: PR[i] stands for the code's own `(value * a) % p` of operand entry i.
+        # The substitution fires only on exactly that text (any other initialiser of v -> the bounded variant on the real expression).
+        pat = r"P v = \(value \* a\) % p;"
+        if len(re.findall(pat, body)) != 1:
+            return _scale_unit(3, True)
+        body = re.sub(pat, '__CPROVER_assert(value == AV[it], "abstraction: value is the operand entry at it"); P v = PR[it];', body)
+        log.append(dict(pattern=pat, replacement="P v = PR[it];", fired=1, expected=1, kind="pure-expression-as-table",
+                        note="`(value * a) % p` read from the ghost table PR[it] (PR[i] stands for (AV[i] * a) % p, any value in (-p, p)); value == AV[it] asserted at the site"))
     body = re.sub(r"(P v = [^;]*;)", r"\1 const P vp_v0 = v;", body, count=1)
     if not bounded:
         body = X.splice_loop_contracts(body, contracts, log)
@@ -190,12 +199,12 @@ size_t AI[MAXLEN], RI[MAXLEN], SRC[MAXLEN], na, nr; P AV[MAXLEN], RV[MAXLEN]; P 
 #define INSRC(k) %(INSRC)s
 /* the product of operand entry i with the scalar, reduced to 0..p-1 */
 #define NORM(x) ((x) < 0 ? (x) + p : (x))
-#define PRODN(i) NORM((AV[i] * a) %% p)
+%(PRODDEF)s
 #define ALLR(r, body) __CPROVER_forall { size_t r; (r < MAXLEN) ==> (body) }
 #define ALLA(r, body) __CPROVER_forall { size_t r; (r < MAXLEN) ==> (body) }
 void scale(void)
 __CPROVER_requires(p >= 2 && p < 32768 && a > -32768 && a < 32768 && na <= MAXLEN && nr == 0)
-/* operand canonical: indices strictly increasing, values in 1..p-1 */
+%(PRREQ)s/* operand canonical: indices strictly increasing, values in 1..p-1 */
 __CPROVER_requires(ALLA(ra, ra < na ==> (AV[ra] >= 1 && AV[ra] < p && (ra + 1 < na ==> AI[ra] < AI[ra + 1]))))
 __CPROVER_assigns(nr, __CPROVER_object_whole(RI), __CPROVER_object_whole(RV), __CPROVER_object_whole(SRC))
 /* every result entry is an operand entry (in order) with its product reduced to 1..p-1; the result is canonical */
@@ -210,11 +219,16 @@ void h_scale(void) {
   scale();
   __CPROVER_assert(0, "VP_REACH end of harness");
 }
-""" % dict(MAXLEN=maxlen, INSRC=insrc, BODY=body)
+""" % dict(MAXLEN=maxlen, INSRC=insrc, BODY=body,
+           PRODDEF="#define PRODN(i) NORM((AV[i] * a) % p)" if bounded else "P PR[MAXLEN];\n#define PRODN(i) NORM(PR[i])",
+           PRREQ="" if bounded else "/* the table of products: the C remainder lies strictly between -p and p */\n__CPROVER_requires(ALLA(rm, PR[rm] > -p && PR[rm] < p))\n")
     text = _fresh(fn)
     spec = dict(unit="K22c_spvecfp_scale", site="K22c_spvecfp_scale", lang="c", source=rel + " (SpVecFP::operator*(const P&))", entry="h_scale", rewrites=log, timeout=2400,
                 dropped=["class wrapper; template header"], replay=_replay_scale,
-                assumptions=["std::vector of boost tuples bound to index / value arrays; P = long; |a| and p below 2^15 (no overflow of value * a); the argument does not use primality"],
+                assumptions=["std::vector of boost tuples bound to index / value arrays; P = long; the argument does not use primality",
+                             "machine arithmetic treated as mathematical for the one expression `(value * a) % p`: it is opaque in the loop proof (table PR), "
+                             "assumed not to overflow for |a|, p < 2^15 and to lie strictly between -p and p (C11 6.5.5); the loop-free lemma stating both "
+                             "did not finish in 300 s on the SAT back end (64-bit multiplier and divider) - the bounded variant and the E2 unit evaluate the real expression"],
                 trusted=["cbmc 6.11 + DFCC, SAT back end (bounded quantifier instantiation)"])
     if bounded:
         cap = "".join("  vp_in_ai[%d] = AI[%d]; vp_in_av[%d] = AV[%d];\n" % ((i,) * 4) for i in range(maxlen))
@@ -232,6 +246,7 @@ void h_scale(void) {
 
 
 def units(tier):
-    # K22c (_scale_unit) is NOT registered: with a symbolic 15-bit scalar and modulus the obligations that relate the code's
-    # (value * a) % p to the specification's product do not finish on the SAT back end (2400 s cap, <= 3 entries) - see DESIGN 10.16
-    return [X.guarded("K22b_spvecfp_plus", _unit, 3 if tier == "thorough" else 2)]
+    # K22c: registered with the product expression opaque (ghost table PR) - with the expression itself in the specification the
+    # obligations did not finish on the SAT back end (2400 s cap, <= 3 entries) - see DESIGN 10.16
+    return [X.guarded("K22b_spvecfp_plus", _unit, 3 if tier == "thorough" else 2),
+            X.guarded("K22c_spvecfp_scale", _scale_unit, 4 if tier == "thorough" else 3)]
